@@ -1125,6 +1125,23 @@ def sweep_probes(s, what):
             yield "zone_text", ["x " + tn + " " + text, 1, 0, 0]
             yield "read_rrsets", ["x 300 " + tn + " " + text, 0, 1, 0]
             yield "msg_text", ["id 1\nopcode QUERY\nflags QR\n;QUESTION\nx.example. IN " + tn + "\n;ANSWER\nx.example. 300 IN " + tn + " " + text + "\n", 1, 1, 0]
+        # message text: every token of three base messages replaced by each boundary token
+        mtok = SWEEP_TOKENS + ["TYPE65535", "TYPE65536", "TYPE-1", "CLASS65535", "CLASS65536", "TYPE", "CLASS", "ANY", "NONE", "QR", "BOGUS",
+                               "UPDATE", "NOERROR", "BADVERS", "16", "4095", "4096", "id", "flags", "edns", "eflags", "payload", "opcode", "rcode",
+                               ";QUESTION", ";ANSWER", ";ZONE", ";PREREQ", ";UPDATE", ";ADDITIONAL", ";HEADER", ";"]
+        mbase = [
+            "id 1234\nopcode QUERY\nrcode NOERROR\nflags QR AA RD\nedns 0\neflags DO\npayload 1232\n;QUESTION\nwww.example. IN A\n;ANSWER\nwww.example. 300 IN A 1.2.3.4\n 300 IN MX 10 mail.example.\n;AUTHORITY\nexample. 300 IN NS ns.example.\n;ADDITIONAL\nns.example. 300 IN AAAA ::1\n",
+            "id 1\nopcode UPDATE\nrcode NOERROR\nflags QR\n;ZONE\nexample. IN SOA\n;PREREQ\nfoo.example. ANY A\nbar.example. NONE A\n;UPDATE\nfoo.example. 300 IN A 1.2.3.4\nfoo.example. ANY A\nfoo.example. 0 NONE A 1.2.3.4\n",
+            "id 7\nflags\n;QUESTION\n@ CH TXT\n;ANSWER\n@ 0 CH TXT \"a b\" \"c\"\n",
+        ]
+        for mt in mbase:
+            toks = re.findall(r"\S+|\s+", mt)
+            for i, tk in enumerate(toks):
+                if not tk.strip():
+                    continue
+                for rep in mtok:
+                    yield "msg_text", ["".join(toks[:i] + [rep] + toks[i + 1:]), 1, 1, 0]
+                yield "msg_text", ["".join(toks[:i] + toks[i + 1:]), 0, 0, 1]
         # $GENERATE: every range string over a small alphabet, every token of the directive lines
         import itertools
 
